@@ -26,32 +26,32 @@ const (
 
 // Alias maps the short package names used in rule tables to import paths.
 var Alias = map[string]string{
-	"vault":       ModMain + "/internal/vault",
-	"barrier":     ModMain + "/internal/vault/barrier",
-	"routing":     ModMain + "/internal/vault/routing",
-	"policy":      ModMain + "/internal/vault/policy",
-	"identity":    ModMain + "/internal/vault/identity",
-	"http":        ModMain + "/internal/http",
-	"audit":       ModMain + "/internal/audit",
-	"raft":        ModMain + "/internal/physical/raft",
-	"postgresql":  ModMain + "/internal/physical/postgresql",
-	"kv":          ModMain + "/internal/builtin/logical/kv",
-	"pki":         ModMain + "/internal/builtin/logical/pki",
-	"transit":     ModMain + "/internal/builtin/logical/transit",
-	"server":      ModMain + "/internal/command/server",
-	"namespace":   ModMain + "/internal/helper/namespace",
-	"physical":    ModSDK + "/physical",
-	"inmem":       ModSDK + "/physical/inmem",
-	"logical":     ModSDK + "/logical",
-	"framework":   ModSDK + "/framework",
-	"shamir":      ModSDK + "/helper/shamir",
-	"keysutil":    ModSDK + "/helper/keysutil",
-	"certutil":    ModSDK + "/helper/certutil",
-	"policyutil":  ModSDK + "/helper/policyutil",
-	"locksutil":   ModSDK + "/helper/locksutil",
-	"salt":        ModSDK + "/helper/salt",
-	"sdkplugin":   ModSDK + "/plugin",
-	"consts":      ModSDK + "/helper/consts",
+	"vault":      ModMain + "/internal/vault",
+	"barrier":    ModMain + "/internal/vault/barrier",
+	"routing":    ModMain + "/internal/vault/routing",
+	"policy":     ModMain + "/internal/vault/policy",
+	"identity":   ModMain + "/internal/vault/identity",
+	"http":       ModMain + "/internal/http",
+	"audit":      ModMain + "/internal/audit",
+	"raft":       ModMain + "/internal/physical/raft",
+	"postgresql": ModMain + "/internal/physical/postgresql",
+	"kv":         ModMain + "/internal/builtin/logical/kv",
+	"pki":        ModMain + "/internal/builtin/logical/pki",
+	"transit":    ModMain + "/internal/builtin/logical/transit",
+	"server":     ModMain + "/internal/command/server",
+	"namespace":  ModMain + "/internal/helper/namespace",
+	"physical":   ModSDK + "/physical",
+	"inmem":      ModSDK + "/physical/inmem",
+	"logical":    ModSDK + "/logical",
+	"framework":  ModSDK + "/framework",
+	"shamir":     ModSDK + "/helper/shamir",
+	"keysutil":   ModSDK + "/helper/keysutil",
+	"certutil":   ModSDK + "/helper/certutil",
+	"policyutil": ModSDK + "/helper/policyutil",
+	"locksutil":  ModSDK + "/helper/locksutil",
+	"salt":       ModSDK + "/helper/salt",
+	"sdkplugin":  ModSDK + "/plugin",
+	"consts":     ModSDK + "/helper/consts",
 }
 
 // Patterns loaded for every check. The whole main module plus the sdk module:
